@@ -1144,7 +1144,7 @@ impl Engine for ChainSim {
         out
     }
     fn rule(&self) -> String {
-        "one case = chain configuration (bech32 prefix, accounts, denominations, validators, module fault plan) + a seeded history of operations: store/duplicate code, execute / execute_multi / sudo / wasm_sudo / Executor helpers with generated message trees (contract calls, instantiate(2), migrate, admin changes, bank, staking, custom/ibc/gov/stargate/any; reply_on modes, ids, payloads, attributes, events, data, attached funds relative to the balance), block updates, external storage writes and App-level query batteries; faults (body errors, reply errors, malformed responses, overdrafts, module rejections) are placed by the PRNG and, for swept trees, at every single site. After every step the real App is compared with the reference model (outcome, invocation trace, module-call trace, responses, balances, registry, contract storage, raw root diff). Non-trivial = at least one injected fault fired in the run. Distinct = hash of (tree shapes x reply modes x message kinds x fail flags, fired-fault kinds x min(count,2)).".to_string()
+        "one case = chain configuration (bech32 prefix, accounts incl. optional plain-named ones, denominations, validators, module fault plan, what answers behind the module recorders, optional adversarial address generator and creator-dependent checksum generator) + a seeded history of operations: store/duplicate code, execute / execute_multi / sudo / wasm_sudo / Executor helpers with generated message trees (contract calls, instantiate(2), migrate, admin changes, bank, staking, custom/ibc/gov/stargate/any; reply_on modes, ids, payloads, attributes, events, data of 0 .. 20000 bytes, attached funds relative to the balance, scripted reads / writes incl. restore and bulk writes, nested smart queries; contracts in four packagings), block updates (height, seconds, nanoseconds, chain id, time 0), external storage writes and App-level query batteries; faults (body errors, reply errors, malformed responses, overdrafts, module rejections) are placed by the PRNG and, for swept trees, at every single site. After every step the real App is compared with the reference model (outcome, invocation trace, module-call trace, responses, balances, registry, contract storage, raw root diff). Non-trivial = at least one injected fault fired in the run. Distinct = hash of (tree shapes x reply modes x message kinds x fail flags, fired-fault kinds x min(count,2)).".to_string()
     }
     fn assumptions(&self, _cfg: &Cfg) -> Vec<String> {
         vec![
